@@ -24,6 +24,8 @@ fn cmd_for(kind: char, id: &str, probes: &Path) -> (String, Vec<String>, Option<
     match kind {
         'N' => (format!("{}; sleep 0.25; printf '%s|late|%s\\n' \"{}\" \"$([ -d \"$TMPDIR\" ] && echo yes || echo no)\" >> {}; echo foo", p, id, probes.display()), vec!["foo".into()], None),
         'P' => (format!("{}; echo foo", p), vec!["foo".into()], None),
+        // the test case's own configuration names the variables scrut documents as set by scrut: scrut's values must still be the ones seen
+        'V' => (format!("{}; echo foo", p), vec!["foo".into()], Some("environment: {TESTDIR: \"/bogus\", TESTFILE: \"bogus.md\", TMPDIR: \"/bogus-tmp\", TESTSHELL: \"/bin/false\", LANG: \"xx_XX\", LANGUAGE: \"xx\", LC_ALL: \"xx_XX\", TZ: \"XXX\", COLUMNS: \"7\", CDPATH: \"/x\", GREP_OPTIONS: \"-v\"}")),
         'O' => (format!("{}; echo foo", p), vec!["bar".into()], None),
         'C' => (format!("{}; echo foo; (exit 3)", p), vec!["foo".into()], None),
         'S' => (format!("{}; (exit 80)", p), vec![], None),
@@ -74,6 +76,7 @@ fn gen_proc(r: &mut Rng, flag: char, quiet: bool) -> Proc {
                 4 => if !cram && !slow && r.chance(1, 3) { slow = true; 'T' } else { 'P' },
                 _ => *r.pick(&['P', 'O', 'C', 'S']),
             });
+            if !quiet && !cram { let l = tests.len(); if tests[l - 1] == 'P' && r.chance(1, 4) { tests[l - 1] = 'V'; } }
             if quiet { let l = tests.len(); tests[l - 1] = 'N'; }
         }
         let bad_prepend = !quiet && !cram && r.chance(1, 14);
